@@ -378,6 +378,182 @@ def thread_history(job):
     return results
 
 
+# --------------------------------------------------------------------------
+# histories in one process on generated listings (ground truth known): repeated
+# parses with other work in between, and one path rewritten with other content
+# of exactly the same length
+
+class Collector:
+    '''stands for the check context inside a worker process'''
+
+    def __init__(self):
+        self.failures = []
+        self.counts = {}
+
+    def oracle_failure(self, what, case, key=None):
+        self.failures.append([what, key])
+
+    def count(self, key, n=1):
+        self.counts[key] = self.counts.get(key, 0) + n
+
+
+def dirty_allocator(rng, repo):
+    '''other work between two parses: a shipped listing with large arrays, then
+    many short-lived small arrays full of ordinary numbers'''
+    import numpy as np
+    from valjean.eponine.tripoli4.parse import Parser
+    name = rng.choice(['gauss_E_time_mu_phi.res.ceav5', 'box_dyn.res.ceav5', 'pertu_covariances.d.res.ceav5'])
+    try:
+        res = Parser(os.path.join(repo, DATA, name)).parse_from_index(-1)
+        del res
+    except Exception:  # noqa
+        pass
+    for size in range(1, 140):
+        blocks = [np.full(size, rng.choice([7.5, -1.25e10, 3.0])) for _ in range(6)]
+        recs = [np.full((1, 1, 1, 1, size % 7 + 1, 1, 1), 2.5,
+                        dtype=np.dtype({'names': ['score', 'sigma'], 'formats': [np.float64] * 2}))
+                for _ in range(6)]
+        del blocks, recs
+
+
+def parse_outcome(path, doc=None, coll=None, where=''):
+    '''{batch: digest | exception class} of everything a listing holds; with a
+    document, every edition is also compared with its ground truth'''
+    import c10
+    from valjean.eponine.tripoli4.parse import Parser, ParserException
+    try:
+        par = Parser(path)
+    except ParserException:
+        return {'open': 'ParserException'}
+    except Exception as exc:  # noqa
+        return {'open': type(exc).__name__}
+    out = {'scan': [[k, hashlib.sha1(par.scan_res[k].encode()).hexdigest()[:12]] for k in par.batch_numbers()]}
+    editions = {e['batch']: e for e in doc['editions']} if doc else {}
+    for bnum in par.batch_numbers():
+        try:
+            pres = par.parse_from_number(bnum)
+            out[str(bnum)] = edition_digest(pres.res)
+            if bnum in editions and coll is not None:
+                c10.t4_oracle(coll, editions[bnum], pres.to_browser(), {'listing': where}, bnum)
+        except ParserException:
+            out[str(bnum)] = 'ParserException'
+        except Exception as exc:  # noqa
+            out[str(bnum)] = type(exc).__name__
+    return out
+
+
+def generated_history(job):
+    '''one history in this (fresh) process; returns the oracle failures'''
+    import random
+    common.import_repo()
+    import logging
+    logging.disable(logging.CRITICAL)
+    import c10
+    wdir, hid, mode, seed, repo = job
+    rng = random.Random(seed)
+    coll = Collector()
+    head = c10.header(repo)
+    base = os.path.join(wdir, f'gen{hid}_')
+    made = []
+
+    def write(name, data):
+        path = base + name
+        with open(path, 'wb') as fil:
+            fil.write(data)
+        if path not in made:
+            made.append(path)
+        return path
+
+    def compare(got, want, what, key):
+        if got != want:
+            diff = sorted(k for k in set(got) | set(want) if got.get(k) != want.get(k))
+            coll.oracle_failure(f'{what} (differs for {diff[:4]})', None, key)
+    if mode == 'unconverged':
+        doc = c10.draw_unconverged_doc(rng)
+        data = c10.listing_text(doc, head).encode('utf-8')
+        full = write('full.res', data)
+        ref = parse_outcome(full, doc, coll, f'generated listing, first parse (seed {seed})')
+        ends = [i for i in range(len(data)) if data.startswith(b' simulation time (s) :', i)]
+        for rep in range(3):
+            dirty_allocator(rng, repo)
+            again = parse_outcome(full, doc, coll, f'generated listing, parse {rep + 2} in the process')
+            compare(again, ref, f'parse {rep + 2} of the same listing in one process gives other results than '
+                    'the first one', 'repeated-parse-differs')
+            for pos in rng.sample(ends, min(2, len(ends))):
+                cut = data.find(b'\n', pos) + 1 + rng.choice([0, 0, 1, 7, 40])
+                dirty_allocator(rng, repo)
+                part = parse_outcome(write('cut.res', data[:cut]), doc, coll,
+                                     f'generated listing cut at byte {cut}')
+                for key, val in part.items():
+                    if key not in ('scan', 'open') and ref.get(key) != val:
+                        coll.oracle_failure(f'results of edition {key} of the listing cut at byte {cut} differ '
+                                            'from those of the complete listing', None, 'edition-results-differ')
+                coll.count('generated_prefixes_parsed')
+        coll.count('generated_unconverged_histories')
+    else:
+        # one scratch path rewritten with other content of the same length
+        if mode == 'same-length-generated':
+            doc_a = c10.draw_unconverged_doc(rng) if rng.random() < 0.5 else c10.draw_doc(rng)
+            doc_b = c10.same_length_variant(doc_a, rng)
+            contents = [(c10.listing_text(d, head).encode('utf-8'), d) for d in (doc_a, doc_b)]
+        else:
+            # equal-length prefixes of two shipped listings, at least one of them usable
+            for _ in range(8):
+                names = rng.sample(ACCEPTED + REFUSED[:3], 2)
+                blobs = [open(os.path.join(repo, DATA, n), 'rb').read() for n in names]
+                size = min(len(b) for b in blobs)
+                short = min(blobs, key=len)
+                marks = [i for i in range(size) if short.startswith(b' time (s)', i)]
+                if marks and rng.random() < 0.5:
+                    size = short.find(b'\n', rng.choice(marks)) + 1 + rng.choice([0, 30])
+                contents = [(b[:size], None) for b in blobs]
+                if len(marks) > 0:
+                    break
+        if len(contents[0][0]) != len(contents[1][0]):
+            coll.count('same_length_variant_not_same_length')
+        else:
+            refs = [parse_outcome(write(f'unique{k}.res', dat), doc, coll, f'content {k} at its own path')
+                    for k, (dat, doc) in enumerate(contents)]
+            if refs[0] == refs[1]:
+                coll.count('same_length_contents_with_equal_results')
+            order = [0, 1] + [rng.randrange(2) for _ in range(2)]
+            for num, k in enumerate(order):
+                dat, doc = contents[k]
+                got = parse_outcome(write('scratch.res', dat), doc, coll,
+                                    f'scratch path rewritten, step {num} (content {k}, {len(dat)} bytes)')
+                compare(got, refs[k], f'a path rewritten with content {k} of the same length ({len(dat)} bytes, '
+                        f'step {num} of {order}) is parsed as something else than that content',
+                        'rewritten-path-stale')
+            coll.count('rewritten_path_histories_' + mode)
+    for path in made:
+        if os.path.exists(path):
+            os.unlink(path)
+    return coll.failures, coll.counts
+
+
+def start_generated_histories(ctx):
+    quick = ctx.tier == 'quick'
+    modes = ['unconverged', 'same-length-generated', 'same-length-prefixes']
+    jobs = [(ctx.wd(), hid, modes[hid % 3], ctx.rng.randrange(10 ** 9), common.REPO)
+            for hid in range(12 if quick else 150)]
+    pool = multiprocessing.get_context('fork').Pool(4, maxtasksperchild=1)
+    return pool, jobs, pool.map_async(generated_history, jobs, chunksize=1)
+
+
+def finish_generated_histories(ctx, started):
+    pool, jobs, pending = started
+    outs = pending.get(timeout=1500)
+    pool.close()
+    pool.join()
+    for job, (failures, counts) in zip(jobs, outs):
+        case = {'kind': 'generated-history', 'mode': job[2], 'seed': job[3], 'id': job[1]}
+        for key, num in counts.items():
+            ctx.count(key, num)
+        for what, key in failures:
+            ctx.oracle_failure(f'{what} :: history {job[2]} (seed {job[3]})', case, key=key)
+        ctx.case_seen(case, True, sample_every=4)
+
+
 def run_thread_histories(ctx):
     quick = ctx.tier == 'quick'
     nhist = 12 if quick else 120
@@ -1043,9 +1219,11 @@ def run(ctx):
                 'that succeeds (after another parse, for a history); distinct by (listing, offset) / steps')
     jobs = build_jobs(ctx)
     t0 = time.time()
+    started = start_generated_histories(ctx)     # in their own processes, next to the prefix sweep
     with multiprocessing.get_context('fork').Pool(min(common.NPROC, 14)) as pool:
         outs = pool.map(worker, jobs, chunksize=1)
     run_thread_histories(ctx)
+    finish_generated_histories(ctx, started)
     ctx.extra['implementation_wall_s'] = round(time.time() - t0, 1)
     # which listings store a batch number twice: compare line-boundary prefixes (cheap, synthetic only)
     shards, indexes = [], []
@@ -1101,6 +1279,16 @@ def replay(ctx, path):
     logging.disable(logging.CRITICAL)
     data = json.load(open(path))
     case = data['case']
+    if case.get('kind') == 'generated-history':
+        print('history', case['mode'], 'seed', case['seed'], '(regenerated from the seed)')
+        with multiprocessing.get_context('fork').Pool(1, maxtasksperchild=1) as pool:
+            failures, counts = pool.map(generated_history, [(ctx.wd(), case['id'], case['mode'], case['seed'],
+                                                             common.REPO)])[0]
+        print('counts:', counts)
+        for what, key in failures:
+            print('oracle:', key, '-', what)
+        print('model: results are a function of the text of the listing (C11_prefix_parse_identical)')
+        return 0
     if case.get('kind') == 'threads':
         print('history (thread, listing, cut):', case['steps'])
         with multiprocessing.get_context('fork').Pool(1, maxtasksperchild=1) as pool:
